@@ -209,6 +209,8 @@ func primCases(r *rec, g *te.Gen, tier string) {
 			fs = append(fs, reflect.StructField{Name: "Pad", Type: aper.BitStringType, Tag: reflect.StructTag(fmt.Sprintf(`aper:"sizeLB:%d,sizeUB:%d"`, off, off))})
 		}
 		fs = append(fs, reflect.StructField{Name: "X", Type: xt, Tag: reflect.StructTag(`aper:"` + tag + `"`)})
+		// a three-bit field behind the value under test: whatever the primitive leaves in the bit cursor shows in where this one lands
+		fs = append(fs, reflect.StructField{Name: "Z", Type: reflect.TypeOf(int64(0)), Tag: `aper:"valueLB:0,valueUB:7"`})
 		return reflect.StructOf(fs)
 	}
 	run := func(cls string, off int, xt reflect.Type, tag string, set func(x reflect.Value)) {
@@ -219,7 +221,8 @@ func primCases(r *rec, g *te.Gen, tier string) {
 			b[0] = byte(0xff << uint(8-off))
 			v.Field(0).Set(reflect.ValueOf(aper.BitString{Bytes: b, BitLength: uint64(off)}))
 		}
-		set(v.Field(v.NumField() - 1))
+		set(v.Field(v.NumField() - 2))
+		v.Field(v.NumField() - 1).SetInt(5)
 		r.roundtrip(cls, "prim:"+cls, v, "", false)
 	}
 	offs := []int{0, 1, 7}
@@ -439,6 +442,51 @@ func primCases(r *rec, g *te.Gen, tier string) {
 	}
 }
 
+// special values: a RAN node name made of the whole PrintableString alphabet (X.680 table 10: 74 characters); NG RESET messages whose
+// connection list holds many items with one identifier or none (items of a few bits: more items than octets)
+func specialCases(r *rec, g *te.Gen) {
+	for _, name := range []string{"ABCDEFGHIJKLMNOPQRSTUVWXYZabcdefghijklmnopqrstuvwxyz0123456789 '()+,-./:=?", "a/b", "/"} {
+		v := reflect.ValueOf(ngapType.RANNodeName{Value: name})
+		r.roundtrip("RANNodeName", "special:name", v, "", false)
+	}
+	for _, shape := range [][2]int{{8, 0}, {8, 1}, {16, 2}, {100, 0}, {40, 3}} {
+		pdu := ngapType.NGAPPDU{Present: 1, InitiatingMessage: &ngapType.InitiatingMessage{}}
+		im := pdu.InitiatingMessage
+		im.ProcedureCode.Value = ngapType.ProcedureCodeNGReset
+		im.Criticality.Value = ngapType.CriticalityPresentReject
+		im.Value.Present = ngapType.InitiatingMessagePresentNGReset
+		im.Value.NGReset = &ngapType.NGReset{}
+		c := ngapType.NGResetIEs{}
+		c.Id.Value = ngapType.ProtocolIEIDCause
+		c.Criticality.Value = ngapType.CriticalityPresentIgnore
+		c.Value.Present = ngapType.NGResetIEsPresentCause
+		c.Value.Cause = &ngapType.Cause{Present: ngapType.CausePresentMisc, Misc: &ngapType.CauseMisc{Value: 0}}
+		ie := ngapType.NGResetIEs{}
+		ie.Id.Value = ngapType.ProtocolIEIDResetType
+		ie.Criticality.Value = ngapType.CriticalityPresentReject
+		ie.Value.Present = ngapType.NGResetIEsPresentResetType
+		rt := &ngapType.ResetType{Present: ngapType.ResetTypePresentPartOfNGInterface, PartOfNGInterface: &ngapType.UEAssociatedLogicalNGConnectionList{}}
+		for i := 0; i < shape[0]; i++ {
+			it := ngapType.UEAssociatedLogicalNGConnectionItem{}
+			switch shape[1] {
+			case 1:
+				it.AMFUENGAPID = &ngapType.AMFUENGAPID{Value: int64(i)}
+			case 2:
+				it.RANUENGAPID = &ngapType.RANUENGAPID{Value: int64(i)}
+			case 3:
+				if i%13 == 0 {
+					it.AMFUENGAPID = &ngapType.AMFUENGAPID{Value: int64(i)}
+					it.RANUENGAPID = &ngapType.RANUENGAPID{Value: int64(1000 + i)}
+				}
+			}
+			rt.PartOfNGInterface.List = append(rt.PartOfNGInterface.List, it)
+		}
+		ie.Value.ResetType = rt
+		im.Value.NGReset.ProtocolIEs.List = []ngapType.NGResetIEs{c, ie}
+		r.roundtrip("NGReset", "special:reset", reflect.ValueOf(pdu), pduTag, false)
+	}
+}
+
 func openCases(r *rec, g *te.Gen) {
 	// open types with inner lengths 0, 1, 127, 128, 16383 via NAS-PDU inside DownlinkNASTransport (16381: the value of the IE is 16383
 	// octets, the last length that is not fragmented)
@@ -517,6 +565,7 @@ func main() {
 		pduCases(r, g, per, 7, int(((*seed)%7+7)%7))
 		g.Full, g.Rich = 0, false
 		openCases(r, g)
+		specialCases(r, g)
 	}
 	if *mode == "prim" || *mode == "all" {
 		primCases(r, g, *tier)
